@@ -34,6 +34,8 @@ type isoCase struct {
 	Sessions []session `json:"sessions"`
 	Order    []int     `json:"order"`   // interleaving: which session performs its next step
 	History  int       `json:"history"` // >0: the first History sessions run to completion one after another, the last one is the probe
+	// PortSpread 0: every session uses the same client port (from different hosts); 1: alternating ports
+	PortSpread int `json:"port_spread"`
 }
 
 type result struct {
@@ -78,7 +80,8 @@ func runSessionsLive(c isoCase, which []int, order []int) (map[int]*result, func
 	for _, i := range which {
 		sc := &svc.Script{Service: c.Service, UDP: c.UDP,
 			// fixed, distinct client addresses per session slot so alone/interleaved runs are comparable
-			SrcIP: net.IPv4(10, 77, byte(i+1), 9), SrcPort: 41000 + i}
+			// same source port from different hosts (ephemeral ports repeat across hosts)
+			SrcIP: net.IPv4(10, 77, byte(i+1), 9), SrcPort: 41000 + (i%2)*(c.PortSpread)}
 		for _, h := range c.Sessions[i].Steps {
 			sc.Steps = append(sc.Steps, svc.Step{Data: vlib.UnHex(h), Wait: true})
 		}
@@ -365,7 +368,19 @@ func genSession(t *rapid.T, service string, slot int) session {
 	case "smtp":
 		add("EHLO", []byte("EHLO "+m+".example\r\n"))
 		for i := 0; i < n; i++ {
-			switch rapid.SampledFrom([]string{"mail", "noop", "rset", "vrfy"}).Draw(t, "unit") {
+			switch rapid.SampledFrom([]string{"mail", "bdat", "bdat-abandoned", "noop", "rset", "vrfy"}).Draw(t, "unit") {
+			case "bdat":
+				add("MAIL", []byte("MAIL FROM:<"+m+"@example.org>\r\n"))
+				msg := "Subject: bdat-" + m + "\r\n\r\nchunked body of " + m + "\r\n"
+				add("BDAT-LAST", []byte(fmt.Sprintf("BDAT %d LAST\r\n%s", len(msg), msg)))
+			case "bdat-abandoned":
+				// a first chunk that is never completed (client resets or just leaves)
+				add("MAIL", []byte("MAIL FROM:<"+m+"@example.org>\r\n"))
+				chunk := "Subject: abandoned-" + m + "\r\n\r\nstale bytes of " + m + "\r\n"
+				add("BDAT", []byte(fmt.Sprintf("BDAT %d\r\n%s", len(chunk), chunk)))
+				if rapid.Bool().Draw(t, "rset") {
+					add("RSET", []byte("RSET\r\n"))
+				}
 			case "mail":
 				add("MAIL", []byte("MAIL FROM:<"+m+"@example.org>\r\n"))
 				add("RCPT", []byte("RCPT TO:<rcpt-"+m+"@example.net>\r\n"))
@@ -508,7 +523,7 @@ func TestInterleavings(t *testing.T) {
 	r.Rule("for ldap, ftp, smtp, telnet, redis, memcached, http, tftp: 2-3 scripted sessions (2-8 lock-step request/response steps, per-session marker strings, distinct client addresses) on a FRESH server instance per run; a drawn interleaving of their steps plus, for small cases (<=7 steps in total), ALL merges; oracle = differential: bytes received and events recorded (by source address) for each session equal those of the same session alone on a fresh instance; one session id per connection, never shared; non-trivial = >=2 sessions mid-dialogue with >=1 alternation; distinct by sessions+order")
 	r.Rapid(t, "TestInterleavings", r.Pick(70, 700), func(rt *rapid.T) {
 		service := rapid.SampledFrom(services).Draw(rt, "service")
-		c := isoCase{Service: service, UDP: service == "tftp"}
+		c := isoCase{Service: service, UDP: service == "tftp", PortSpread: rapid.IntRange(0, 1).Draw(rt, "portspread")}
 		k := rapid.IntRange(2, 3).Draw(rt, "nsessions")
 		var counts []int
 		total := 0
@@ -562,7 +577,7 @@ func TestHistories(t *testing.T) {
 	r.Rule("sequential histories: N in 1..20 earlier sessions run to completion one after another on a fresh instance, then a probe session; oracle = the probe's bytes and events equal those of the probe alone on a fresh instance; non-trivial = >=1 earlier session that changed state (login / cwd / mail)")
 	r.Rapid(t, "TestHistories", r.Pick(50, 500), func(rt *rapid.T) {
 		service := rapid.SampledFrom(services).Draw(rt, "service")
-		c := isoCase{Service: service, UDP: service == "tftp"}
+		c := isoCase{Service: service, UDP: service == "tftp", PortSpread: rapid.IntRange(0, 1).Draw(rt, "portspread")}
 		n := rapid.OneOf(rapid.IntRange(1, 4), rapid.IntRange(1, 20)).Draw(rt, "nhistory")
 		c.History = n
 		for i := 0; i <= n; i++ {
